@@ -219,11 +219,18 @@ impl<L: LSPLang> Backend<L> {
     Some(diagnostics)
   }
 
-  async fn publish_diagnostics(&self, uri: Url, versioned: &VersionedAst<StrDoc<L>>) -> Option<()> {
-    let diagnostics = self.get_diagnostics(&uri, versioned).unwrap_or_default();
+  /// Publish the diagnostics of the document currently stored for `uri`.
+  /// The map guard is released before the await: handlers run interleaved on one thread,
+  /// and a guard held by a suspended handler would dead-lock the next handler of that document.
+  async fn publish_diagnostics(&self, uri: Url) -> Option<()> {
+    let (diagnostics, version) = {
+      let versioned = self.map.get(uri.as_str())?;
+      let diagnostics = self.get_diagnostics(&uri, &versioned).unwrap_or_default();
+      (diagnostics, versioned.version)
+    };
     self
       .client
-      .publish_diagnostics(uri, diagnostics, Some(versioned.version))
+      .publish_diagnostics(uri, diagnostics, Some(version))
       .await;
     Some(())
   }
@@ -270,10 +277,10 @@ impl<L: LSPLang> Backend<L> {
       .client
       .log_message(MessageType::LOG, "Publishing init diagnostics.")
       .await;
-    self.publish_diagnostics(text_doc.uri, &versioned).await;
     #[cfg(ast_grep_verif)]
     verif::probe_lock(&self.map, &uri, "on_open");
     self.map.insert(uri.to_owned(), versioned); // don't lock dashmap
+    self.publish_diagnostics(text_doc.uri).await;
     Some(())
   }
 
@@ -287,22 +294,25 @@ impl<L: LSPLang> Backend<L> {
       .await;
     let lang = Self::infer_lang_from_uri(&text_doc.uri)?;
     let root = AstGrep::new(text, lang);
-    #[cfg(ast_grep_verif)]
-    verif::probe_lock(&self.map, uri, "on_change");
-    let mut versioned = self.map.get_mut(uri)?;
-    // skip old version update
-    if versioned.version > text_doc.version {
-      return None;
+    {
+      #[cfg(ast_grep_verif)]
+      verif::probe_lock(&self.map, uri, "on_change");
+      // do not keep this guard across an await, see `publish_diagnostics`
+      let mut versioned = self.map.get_mut(uri)?;
+      // skip old version update
+      if versioned.version > text_doc.version {
+        return None;
+      }
+      *versioned = VersionedAst {
+        version: text_doc.version,
+        root,
+      };
     }
-    *versioned = VersionedAst {
-      version: text_doc.version,
-      root,
-    };
     self
       .client
       .log_message(MessageType::LOG, "Publishing diagnostics.")
       .await;
-    self.publish_diagnostics(text_doc.uri, &versioned).await;
+    self.publish_diagnostics(text_doc.uri).await;
     Some(())
   }
   async fn on_close(&self, params: DidCloseTextDocumentParams) {
